@@ -97,8 +97,45 @@ class _CanonCompare(ast.NodeTransformer):
         return node
 
 
+def _inline_return_temps(tree: ast.AST) -> None:
+    """`t = E; return t` and `t = E; obj.attr = t` (t a local used nowhere else in the function) are read as `return E` / `obj.attr = E`."""
+    for fn in ast.walk(tree):
+        if not isinstance(fn, (ast.FunctionDef, ast.AsyncFunctionDef)):
+            continue
+        uses: Dict[str, int] = {}
+        for n in ast.walk(fn):
+            if isinstance(n, ast.Name):
+                uses[n.id] = uses.get(n.id, 0) + 1
+
+        def block(stmts):
+            i = 0
+            while i + 1 < len(stmts):
+                a, b = stmts[i], stmts[i + 1]
+                if isinstance(a, ast.Assign) and len(a.targets) == 1 and isinstance(a.targets[0], ast.Name) \
+                        and uses.get(a.targets[0].id, 0) == 2:
+                    t = a.targets[0].id
+                    if isinstance(b, ast.Return) and isinstance(b.value, ast.Name) and b.value.id == t:
+                        b.value = a.value
+                        del stmts[i]
+                        continue
+                    # `t = E; obj.attr = t` is read as `obj.attr = E`
+                    if isinstance(b, ast.Assign) and isinstance(b.value, ast.Name) and b.value.id == t and len(b.targets) == 1 \
+                            and isinstance(b.targets[0], ast.Attribute):
+                        b.value = a.value
+                        del stmts[i]
+                        continue
+                i += 1
+        for n in ast.walk(fn):
+            for fld in ("body", "orelse", "finalbody"):
+                v = getattr(n, fld, None)
+                if isinstance(v, list) and v and isinstance(v[0], ast.stmt):
+                    block(v)
+
+
 def canon_compare(tree: ast.AST) -> ast.AST:
-    return ast.fix_missing_locations(_CanonCompare().visit(tree))
+    tree = _CanonCompare().visit(tree)
+    _inline_return_temps(tree)
+    return ast.fix_missing_locations(tree)
 
 
 class ModuleInfo:
